@@ -418,7 +418,7 @@ func c17(ctx *run.Ctx) {
 		b := b
 		ctx.Case(fmt.Sprintf("ring/%d", b), func(cc *run.Case) {
 			for h := 0; h < 25; h++ {
-				capacity := cc.R.Range(1, 9)
+				capacity := cc.R.Pick(cc.R.Range(1, 9), cc.R.Range(1, 9), 16, 17, 31, 32, 33, 40, 64) // small ones mostly, and some beyond any initial allocation size
 				n := cc.R.Range(1, maxOps)
 				switch cc.R.Intn(4) {
 				case 0:
